@@ -2,7 +2,7 @@
 Contracts for the messaging path (C19): EventDispatcher.publish / acknowledge / dispatch and the AMQP mapping in
 Producer.send (both transports), on the REAL bodies.  pika, the broker and the Message class are externals.
 """
-from pyvc.contracts import Contract
+from pyvc.contracts import Contract, Registry
 
 ED = "asl_workflow_engine/event_dispatcher.py::"
 AMQP = {"asyncio": "asl_workflow_engine/amqp_0_9_1_messaging_asyncio.py::", "blocking": "asl_workflow_engine/amqp_0_9_1_messaging.py::"}
@@ -112,3 +112,27 @@ def dispatch_contract():
         ],
         protected=["self", "message", "self.unacknowledged_messages", "self.state_engine"],
         raises={}, modifies="ALL")
+
+
+def message_ack_contract(which):
+    """Message.acknowledge.<locals>.ack (both transports): acknowledging a message acknowledges that delivery and no
+    other -- the broker is told this message's delivery tag with multiple unset; a message that is not a delivery
+    (tag 0: a Basic.Return'ed one) tells the broker nothing; multiple=True is the session-wide JMS-style acknowledge."""
+    sc = Registry()
+    for g, t in (("n_back", "int"), ("back_tag", "val"), ("back_multiple", "val")):
+        sc.ghost(g, t)
+    sc.external("self._channel.basic_ack", ["delivery_tag", "multiple"], modifies=None, result_type="none",
+                ghost={"n_back": "n_back + 1", "back_tag": "delivery_tag", "back_multiple": "multiple"})
+    c = Contract(
+        AMQP[which] + "Message.acknowledge.<locals>.ack", env={"self": "obj", "multiple": "any", "threadsafe": "any"},
+        requires=["isint(self._delivery_tag) or isnone(self._delivery_tag)", "implies(isint(self._delivery_tag), self._delivery_tag >= 0)"],
+        ensures=[
+            ("C03,C19:single-ack-names-this-delivery", "implies(not istrue(multiple) and istrue(self._delivery_tag), n_back == old(n_back) + 1 and "
+                                                       "same(back_tag, self._delivery_tag) and not istrue(back_multiple))"),
+            ("C03,C19:not-a-delivery-acks-nothing", "implies(not istrue(multiple) and not istrue(self._delivery_tag), n_back == old(n_back))"),
+            ("C19:multiple-is-session-wide", "implies(istrue(multiple), n_back == old(n_back) + 1 and back_tag == 0 and back_multiple == True)"),
+        ],
+        raises={}, modifies=None,
+        covers_exit=[("single", "not istrue(multiple) and n_back == old(n_back) + 1"), ("returned-message", "n_back == old(n_back)")])
+    c.scope = sc
+    return c
